@@ -12,11 +12,11 @@ BLANK = dict(ok=False, err='', success=False, nwarn=0, pred=0, closest_g=0, clos
              next=0, report=0)
 
 
-def run_one(w, d, via):
+def run_one(w, d, via, how='f4'):
     """One default-mode classification through one of three public entry points; all must agree with the spec."""
     x = dict(BLANK)
     try:
-        dists = w.dists(d)
+        dists = w.dists(d, how)
         if via == 'item':
             db = SimpleNamespace(genomes=w.genomes)
             item = get_result_item(db, QueryParams(classify_strict=False), dists, QueryInput('q'))
@@ -29,7 +29,7 @@ def run_one(w, d, via):
         x['nwarn'] = len(res.warnings)
         x['pred'] = w.t(res.predicted_taxon)
         x['closest_g'] = w.g(res.closest_match.genome)
-        x['closest_d'] = rank_of(res.closest_match.distance)
+        x['closest_d'] = w.rank_of(res.closest_match.distance)
         x['closest_mt'] = w.t(res.closest_match.matched_taxon)
         x['primary_g'] = 0 if res.primary_match is None else w.g(res.primary_match.genome)
         if via == 'match':
@@ -51,7 +51,8 @@ class Fam(core.Family):
     procs = 16
 
     def execute(self, inp):
-        w = World(inp.get('parent_before', inp['parent']), inp['thr'], inp['report'], inp['gt'])
+        w = World(inp.get('parent_before', inp['parent']), inp['thr'], inp['report'], inp['gt'], values=inp.get('values'))
+        how = inp.get('how', 'f4')
         if 'parent_before' in inp:
             # the taxonomy is edited between two classifications: walk every lineage first, then re-parent to inp['parent']
             run_one(w, inp['d'] if inp['op'] == 'one' else [inp['ds'][0]], 'classify')
@@ -64,11 +65,11 @@ class Fam(core.Family):
         r = dict(op=inp['op'], parent=inp['parent'], thr=inp['thr'], report=inp['report'], gt=inp['gt'])
         if inp['op'] == 'one':
             r['d'] = inp['d']
-            r['res'] = run_one(w, inp['d'], inp.get('via', 'classify'))
+            r['res'] = run_one(w, inp['d'], inp.get('via', 'classify'), how)
         else:
             r['ds'] = inp['ds']
             r['d'] = [inp['ds'][0]]
-            r['runs'] = [run_one(w, [dd], inp.get('via', 'classify')) for dd in inp['ds']]
+            r['runs'] = [run_one(w, [dd], inp.get('via', 'classify'), how) for dd in inp['ds']]
         return r
 
     def corrupt(self, rec):
@@ -177,7 +178,46 @@ class Reparented(Fam):
                         yield dict(op='sweep', parent=p2, parent_before=p1, thr=list(thr), report=[bool((c >> i) & 1) for i in range(n)], gt=[t], ds=[0, 1, 2, 3], via=VIAS[c % 3])
 
 
-FAMILIES = [Sweeps, MultiGenome, RandomDeep, Reparented]
+def awkward_values():
+    """thresholds and distances that are NOT exactly representable in single precision, next to their float32 roundings and float64 neighbours"""
+    import numpy as np
+    base = [0.1, 0.2, 0.3, 0.6, 0.7, 1 / 3]
+    vals = set()
+    for b in base:
+        vals |= {b, float(np.float32(b)), float(np.nextafter(b, 1.0)), float(np.nextafter(b, 0.0))}
+    return sorted(vals)
+
+
+class AwkwardValues(Fam):
+    """Thresholds are Python floats (doubles) and need not be float32 values; distance vectors may legally be float64 arrays or plain lists.
+    The order of the exact values decides; a distance that equals a threshold matches, one a float64 / float32 ulp above it does not."""
+    name = 'non-dyadic-thresholds-and-float64-distances'
+    exhaustive = False
+
+    def inputs(self, ctx):
+        n_sc = 2500 if ctx.tier == 'quick' else 30000
+        vals = awkward_values()
+        import numpy as np
+        f32ok = [i for i, v in enumerate(vals) if float(np.float32(v)) == v]
+        self.rule = (f'{n_sc} seeded scenarios over {len(vals)} values {{0.1, 0.2, 0.3, 0.6, 0.7, 1/3}} with their float32 roundings and float64 neighbours: '
+                     f'forests of 1-4 taxa, thresholds any of the values, 1-3 genomes, distances any of the values given as float64 array, plain list, '
+                     f'or float32 array (values exact in float32 only); three entry points')
+        rng = ctx.rng.__class__(ctx.seed + 33)
+        for i in range(n_sc):
+            n = rng.randint(1, 4)
+            p = [0] + [rng.randint(0, t - 1) for t in range(2, n + 1)]
+            how = ['f8', 'list', 'f4'][i % 3]
+            pool = f32ok if how == 'f4' else list(range(len(vals)))
+            anchor = rng.choice(pool)
+            near = [x for x in pool if abs(x - anchor) <= 3]
+            thr = [rng.choice([-1] + [x for x in range(len(vals)) if abs(x - anchor) <= 3]) for _ in range(n)]
+            ng = rng.randint(1, 3)
+            gt = [rng.randint(1, n) for _ in range(ng)]
+            d = [rng.choice(near) for _ in range(ng)]
+            yield dict(op='one', parent=p, thr=thr, report=[rng.random() < 0.7 for _ in range(n)], gt=gt, d=d, via=VIAS[i % 3], how=how, values=vals)
+
+
+FAMILIES = [Sweeps, MultiGenome, RandomDeep, Reparented, AwkwardValues]
 
 
 def run(ctx):
